@@ -349,7 +349,10 @@ const (
 // toInflux renders the metric as one influx line (precision ms) when the line protocol can say
 // it: no histogram, at least one field, field types Last/Sum/First named with the matching suffix,
 // integer values, representable strings (see above), measurement not starting with '#'.
-func (m *lmetric) toInflux() (string, bool) {
+func (m *lmetric) toInflux() (string, bool) { return m.toInfluxSp(nil) }
+
+// toInfluxSp: like toInflux; non-finite field values are written with spell (nil: not renderable).
+func (m *lmetric) toInfluxSp(spell func(fval) string) (string, bool) {
 	if m.isNil || m.cf != nil || len(m.fields) == 0 || m.name == "" || m.ts < 0 {
 		return "", false
 	}
@@ -366,7 +369,7 @@ func (m *lmetric) toInflux() (string, bool) {
 	}
 	sb.WriteString(" ")
 	for i, f := range m.fields {
-		if f == nil || !influxRepresentable(f.name, influxTagDelims) || f.val.kind != 0 {
+		if f == nil || !influxRepresentable(f.name, influxTagDelims) || f.val.kind != 0 && spell == nil {
 			return "", false
 		}
 		suf, ok := influxSuffix[f.typ]
@@ -376,7 +379,11 @@ func (m *lmetric) toInflux() (string, bool) {
 		if i > 0 {
 			sb.WriteString(",")
 		}
-		sb.WriteString(influxEscape(f.name, influxTagDelims) + "=" + strconv.FormatInt(f.val.n, 10))
+		if f.val.kind != 0 {
+			sb.WriteString(influxEscape(f.name, influxTagDelims) + "=" + spell(f.val))
+		} else {
+			sb.WriteString(influxEscape(f.name, influxTagDelims) + "=" + strconv.FormatInt(f.val.n, 10))
+		}
 	}
 	if m.ts != 0 {
 		sb.WriteString(" " + strconv.FormatInt(m.ts, 10))
